@@ -60,6 +60,52 @@ Definition is_leech (r : role) : bool := match r with Leech => true | _ => false
 (* uint32 `length - 2` as computed by read_message before read_start *)
 Definition sub32 (a b : N) : N := (a + 4294967296 - b) mod 4294967296.
 
+(* The `switch (buf->read_8())` of read_message for message id `id` and length prefix `len`;
+   l is the unread part of the buffer starting at the length prefix (at least 5 bytes). *)
+Definition one_body (r : role) (len id : N) (l : list N) : hdr :=
+  if id =? 0 then Got MChoke 5 else
+  if id =? 1 then Got MUnchoke 5 else
+  if id =? 2 then Got MInterested 5 else
+  if id =? 3 then Got MNotInterested 5 else
+  if id =? 4 then
+    if (length l <? 5 + N.to_nat Params.c03_have_body)%nat then NeedMore else
+    match rd32 l 5 with Some i => Got (MHave i) 9 | None => HFault end
+  else if id =? 6 then
+    if (length l <? 5 + N.to_nat Params.c03_request_body)%nat then NeedMore else
+    match rd32 l 5, rd32 l 9, rd32 l 13 with
+    | Some i, Some o, Some n => Got (MRequest i o n) 17
+    | _, _, _ => HFault
+    end
+  else if id =? 7 then
+    if negb (is_leech r) then Bad RPieceRole else
+    if len <? Params.c03_piece_min_len then Bad RPieceShort else
+    if (length l <? 5 + N.to_nat Params.c03_piece_body)%nat then NeedMore else
+    match rd32 l 5, rd32 l 9 with
+    | Some i, Some o => Got (MPiece i o (len - Params.c03_piece_hdr_sub)) 13
+    | _, _ => HFault
+    end
+  else if id =? 8 then
+    if (length l <? 5 + N.to_nat Params.c03_request_body)%nat then NeedMore else
+    match rd32 l 5, rd32 l 9, rd32 l 13 with
+    | Some i, Some o, Some n => Got (MCancel i o n) 17
+    | _, _, _ => HFault
+    end
+  else if id =? 9 then
+    if (length l <? 5 + N.to_nat Params.c03_port_body)%nat then NeedMore else
+    match rd16 l 5 with Some p => Got (MPort p) 7 | None => HFault end
+  else if id =? Params.c03_id_extension then
+    if (length l <? 5 + N.to_nat Params.c03_ext_body)%nat then NeedMore else
+    match rd l 5 with
+    | None => HFault
+    | Some ty =>
+      let elen := sub32 len Params.c03_ext_hdr_sub in
+      (* read_start: communication_error first, then the internal_error test *)
+      if (Params.c03_ext_first_invalid <=? ty) || (Params.c03_ext_limit <? elen) then Bad RExtBad else
+      if 2147483648 <=? elen then HFatal else
+      Got (MExt ty elen) 6
+    end
+  else Bad RUnknownId.
+
 (* One read_message() call on the unread bytes l.  Got m n: n header bytes consumed. *)
 Definition one_msg (r : role) (l : list N) : hdr :=
   if (length l <? 4)%nat then NeedMore else
@@ -71,49 +117,7 @@ Definition one_msg (r : role) (l : list N) : hdr :=
     if Params.c03_max_msg_len <? len then Bad RLen else
     match rd l 4 with
     | None => HFault
-    | Some id =>
-      if id =? 0 then Got MChoke 5 else
-      if id =? 1 then Got MUnchoke 5 else
-      if id =? 2 then Got MInterested 5 else
-      if id =? 3 then Got MNotInterested 5 else
-      if id =? 4 then
-        if (length l <? 5 + N.to_nat Params.c03_have_body)%nat then NeedMore else
-        match rd32 l 5 with Some i => Got (MHave i) 9 | None => HFault end
-      else if id =? 6 then
-        if (length l <? 5 + N.to_nat Params.c03_request_body)%nat then NeedMore else
-        match rd32 l 5, rd32 l 9, rd32 l 13 with
-        | Some i, Some o, Some n => Got (MRequest i o n) 17
-        | _, _, _ => HFault
-        end
-      else if id =? 7 then
-        if negb (is_leech r) then Bad RPieceRole else
-        if len <? Params.c03_piece_min_len then Bad RPieceShort else
-        if (length l <? 5 + N.to_nat Params.c03_piece_body)%nat then NeedMore else
-        match rd32 l 5, rd32 l 9 with
-        | Some i, Some o => Got (MPiece i o (len - Params.c03_piece_hdr_sub)) 13
-        | _, _ => HFault
-        end
-      else if id =? 8 then
-        if (length l <? 5 + N.to_nat Params.c03_request_body)%nat then NeedMore else
-        match rd32 l 5, rd32 l 9, rd32 l 13 with
-        | Some i, Some o, Some n => Got (MCancel i o n) 17
-        | _, _, _ => HFault
-        end
-      else if id =? 9 then
-        if (length l <? 5 + N.to_nat Params.c03_port_body)%nat then NeedMore else
-        match rd16 l 5 with Some p => Got (MPort p) 7 | None => HFault end
-      else if id =? Params.c03_id_extension then
-        if (length l <? 5 + N.to_nat Params.c03_ext_body)%nat then NeedMore else
-        match rd l 5 with
-        | None => HFault
-        | Some ty =>
-          let elen := sub32 len Params.c03_ext_hdr_sub in
-          (* read_start: communication_error first, then the internal_error test *)
-          if (Params.c03_ext_first_invalid <=? ty) || (Params.c03_ext_limit <? elen) then Bad RExtBad else
-          if 2147483648 <=? elen then HFatal else
-          Got (MExt ty elen) 6
-        end
-      else Bad RUnknownId
+    | Some id => one_body r len id l
     end
   end.
 
@@ -133,9 +137,16 @@ Inductive pres := PRes (h : HS) (m : rmode) (buf : list N) (effs : list effect) 
 Definition pcons (e : effect) (r : pres) : pres :=
   match r with PRes h m b es => PRes h m b (e :: es) | x => x end.
 
+Definition after (m : msg) : option (paykind * N) :=
+  match m with
+  | MPiece _ _ len => Some (KPiece, len)
+  | MExt _ len => Some (KExt, len)
+  | _ => None
+  end.
+
 (* `feed fuel h mode l`: in mode RIdle l is the whole unread buffer; in mode RPay the bytes
-   that are available for the payload (and whatever follows it).  Every recursive call is on a
-   strictly shorter list; fuel = S (length l) is enough (Proofs: feed_fuel). *)
+   that are available for the payload (and whatever follows it).  A payload of length 0 is
+   complete at once.  Measure: length l + (1 in mode RPay) < fuel is enough (ProofsB). *)
 Fixpoint feed (fuel : nat) (h : HS) (m : rmode) (l : list N) : pres :=
   match fuel with
   | O => POut
@@ -143,21 +154,17 @@ Fixpoint feed (fuel : nat) (h : HS) (m : rmode) (l : list N) : pres :=
     match m with
     | RClosed => PRes h RClosed [] []
     | RPay k lft =>
-      match l with
-      | [] => PRes h (RPay k lft) [] []
-      | _ :: _ =>
-        if N.of_nat (length l) <? lft then
-          (* down_chunk_from_buffer: "!finished && remaining != 0" is the internal_error test;
-             all of l was consumed, so remaining = 0 *)
-          PRes h (RPay k (lft - N.of_nat (length l))) [] []
-        else
-          let (h', v) := handle h (pay_done k) in
-          match v with
-          | VCont => pcons (EMsg (pay_done k)) (feed f h' RIdle (skipn (N.to_nat lft) l))
-          | VClose => PRes h' RClosed [] [EMsg (pay_done k); EClose RHandler]
-          | VFatal => PRes h' RClosed [] [EMsg (pay_done k); EFatal]
-          end
-      end
+      if N.of_nat (length l) <? lft then
+        (* down_chunk_from_buffer: "!finished && remaining != 0" is the internal_error test;
+           all of l was consumed, so remaining = 0 *)
+        PRes h (RPay k (lft - N.of_nat (length l))) [] []
+      else
+        let (h', v) := handle h (pay_done k) in
+        match v with
+        | VCont => pcons (EMsg (pay_done k)) (feed f h' RIdle (skipn (N.to_nat lft) l))
+        | VClose => PRes h' RClosed [] [EMsg (pay_done k); EClose RHandler]
+        | VFatal => PRes h' RClosed [] [EMsg (pay_done k); EFatal]
+        end
     | RIdle =>
       match one_msg rl l with
       | NeedMore => PRes h RIdle l []
@@ -165,32 +172,14 @@ Fixpoint feed (fuel : nat) (h : HS) (m : rmode) (l : list N) : pres :=
       | Bad r => PRes h RClosed [] [EClose r]
       | HFatal => PRes h RClosed [] [EFatal]
       | Got mg n =>
-        let rest := skipn n l in
         let (h', v) := handle h mg in
         match v with
         | VClose => PRes h' RClosed [] [EMsg mg; EClose RHandler]
         | VFatal => PRes h' RClosed [] [EMsg mg; EFatal]
         | VCont =>
-          match mg with
-          | MPiece _ _ len =>
-            if len =? 0 then
-              let (h'', v2) := handle h' MPieceDone in
-              match v2 with
-              | VCont => pcons (EMsg mg) (pcons (EMsg MPieceDone) (feed f h'' RIdle rest))
-              | VClose => PRes h'' RClosed [] [EMsg mg; EMsg MPieceDone; EClose RHandler]
-              | VFatal => PRes h'' RClosed [] [EMsg mg; EMsg MPieceDone; EFatal]
-              end
-            else pcons (EMsg mg) (feed f h' (RPay KPiece len) rest)
-          | MExt _ len =>
-            if len =? 0 then
-              let (h'', v2) := handle h' MExtDone in
-              match v2 with
-              | VCont => pcons (EMsg mg) (pcons (EMsg MExtDone) (feed f h'' RIdle rest))
-              | VClose => PRes h'' RClosed [] [EMsg mg; EMsg MExtDone; EClose RHandler]
-              | VFatal => PRes h'' RClosed [] [EMsg mg; EMsg MExtDone; EFatal]
-              end
-            else pcons (EMsg mg) (feed f h' (RPay KExt len) rest)
-          | _ => pcons (EMsg mg) (feed f h' RIdle rest)
+          match after mg with
+          | None => pcons (EMsg mg) (feed f h' RIdle (skipn n l))
+          | Some (k, len) => pcons (EMsg mg) (feed f h' (RPay k len) (skipn n l))
           end
         end
       end
@@ -247,7 +236,7 @@ Fixpoint ev (fuel : nat) (s : mst) (avail : list N) : mres :=
               let want2 := Nat.min (N.to_nat lft) (cap c1) in
               let got2 := firstn want2 avail1 in
               let avail2 := skipn want2 avail1 in
-              match feed (S (length got2)) h1 m1 got2 with
+              match feed (S (S (length got2))) h1 m1 got2 with
               | PFault => MFault
               | POut => MOut
               | PRes h2 m2 b2 es2 =>
@@ -276,7 +265,7 @@ Fixpoint ev (fuel : nat) (s : mst) (avail : list N) : mres :=
       match got with
       | [] => MRet s avail []
       | _ :: _ =>
-        match feed (S (length got)) (m_h s) (RPay k lft) got with
+        match feed (S (S (length got))) (m_h s) (RPay k lft) got with
         | PFault => MFault
         | POut => MOut
         | PRes h1 m1 b1 es1 =>
